@@ -121,7 +121,9 @@ func c18r2(c *Check) {
 				c.Hold(key+" constructor", c.At(in), "the object is allocated in this function and not yet shared")
 				return
 			}
-			same := func(m mutexOp) bool { return m.field != nil && m.field.Type().String() == "sync.Mutex" && sameBase(m.base, base) }
+			same := func(m mutexOp) bool {
+				return m.field != nil && m.field.Type().String() == "sync.Mutex" && sameBase(m.base, base)
+			}
 			lock, held := heldAt(ops, same, in)
 			if !held {
 				c.Violate(key, c.At(in), "Store of a published snapshot without the owner's mutex held: two writers can each derive a new snapshot from the same old one and one change is lost")
